@@ -153,9 +153,14 @@ func (p *Profile) genEvent(rng *rand.Rand, tr *Trace) M {
 			switch {
 			case hostile():
 				// static hostile spellings plus spellings that reach real files through an absolute path or through ".."
-				dyn := []string{tr.R.Root + "/.goit/HEAD", "../root/.goit/index", tr.R.Root + "/.goit", "../root/.goit/config"}
+				// ("@ROOT@" is replaced by the absolute path of the working tree when the command is run)
+				dyn := []string{"@ROOT@/.goit/HEAD", "../root/.goit/index", "@ROOT@/.goit", "../root/.goit/config",
+					"@ROOT@", "../root", "@ROOT@/.", "../root/.", "./", "./.", "@ROOT@/../root"}
 				if len(wtFiles) > 0 {
-					dyn = append(dyn, tr.R.Root+"/"+wtFiles[rng.Intn(len(wtFiles))], "../root/"+wtFiles[rng.Intn(len(wtFiles))])
+					dyn = append(dyn, "@ROOT@/"+wtFiles[rng.Intn(len(wtFiles))], "../root/"+wtFiles[rng.Intn(len(wtFiles))])
+				}
+				if len(dirs) > 0 {
+					dyn = append(dyn, "@ROOT@/"+dirs[rng.Intn(len(dirs))], "../root/"+dirs[rng.Intn(len(dirs))], "./"+dirs[rng.Intn(len(dirs))]+"/")
 				}
 				if rng.Intn(3) == 0 {
 					s = dyn[rng.Intn(len(dyn))]
